@@ -546,10 +546,10 @@ def gen_case(rng, tier):
         m = gen_tiny(rng)
     elif r < .87:
         kind = "discounted-near-tie"          # values ~1e3, a clone of the optimal action worse by 1e-6..1e-5 relative
-        # C16_WORSE_FIRST=1 additionally generates the sub-class in which the slightly worse clone is the INITIAL
-        # policy (lowest action id): there the unchanged code keeps it (relative tie band of the improvement test)
-        # and reports values up to 1e-5 relative below the optimum -- reported to the coordinator, off by default
-        wf = os.environ.get("C16_WORSE_FIRST") == "1" and rng.random() < .4
+        # 40%: the slightly worse clone is the INITIAL policy (lowest action id): there the unchanged code keeps it
+        # (relative tie band of the improvement test) and reports values up to 1e-4 relative below the optimum --
+        # recorded as known finding, class rule NEAR_TIE_RULE; C16_WORSE_FIRST=0 switches the sub-class off
+        wf = os.environ.get("C16_WORSE_FIRST", "1") != "0" and rng.random() < .4
         m, _info = gen_near_tie(rng, worse_first=wf)
     else:
         kind = "undisc-sweep"                 # one planner object: A, perturbed B, (C,) A again
@@ -914,6 +914,27 @@ def search_failing(case, res, d):
                 if pi[s][a] > 0 and qs[a] < best - 3 * bound:
                     return {"clause": "policy gives positive probability to a sub-optimal action",
                             "state_index": s, "action_index": a, "q_opt": str(qs[a]), "best": str(best)}
+        # near-tie class, error small against the GLOBAL value scale: show that the reported values are (to solver
+        # accuracy) the exact values of the non-optimal policy that keeps the in-band lower-index action
+        nt = inside_band_lower_index(Pa, Ra, av, d["absorbing"], gam, Vs)
+        if nt is not None:
+            pol = []
+            for s in range(n):
+                qs = {a: Ra[s][a] + gam * ex(Pa, Vs, s, a) for a in range(nA) if av[s][a]}
+                pol.append(min(a for a in qs if qs[a] == max(qs.values())))
+            pol[nt["state_index"]] = nt["action_index"]
+            A = [[(F(1) if i == j else F(0)) - gam * Pa[i][pol[i]][j] for j in range(n)] for i in range(n)]
+            Vb = _c01.solve_linear(A, [Ra[i][pol[i]] for i in range(n)])
+            if Vb is not None:
+                e_b = max(abs(x - y) for x, y in zip(h, Vb))
+                e_s = max(abs(x - y) for x, y in zip(h, Vs))
+                gap = max(abs(x - y) for x, y in zip(Vs, Vb))
+                if gap > 0 and e_b <= bound and 4 * e_b < e_s:
+                    return {"clause": "state values are those of a policy that keeps a slightly worse action, not the optimal discounted values",
+                            "signature": "C16:discounted:near-tie-inside-improvement-band:values-not-optimal",
+                            "class_rule": NEAR_TIE_RULE, "near_tie": nt,
+                            "distance_to_that_policy_values": str(float(e_b)), "distance_to_optimal_values": str(float(e_s)),
+                            "relative_to_value_scale": str(float(e_s / vscale))}
         return None
     gstar, src = exact_optimal_gain(Pa, Ra, av), "exact self-certified multichain policy iteration"
     if gstar is None:
